@@ -79,6 +79,7 @@ type c01Out struct {
 }
 
 func c01Run(in c01In) c01Out {
+	vk.Running("switchover", in)
 	var out c01Out
 	dir, _ := os.MkdirTemp("", "c01")
 	defer os.RemoveAll(dir)
